@@ -1,6 +1,5 @@
-\* static copy of the client-side exhaustive configuration of TSMids.tla (driver c11 generates its own)
 SPECIFICATION Spec
-CONSTANTS Peers = {1, 2} Foreign = 9 IdMod = 4 Ids = {0, 1, 3} StartIds = {0, 2, 3} MaxLive = 2 MaxReq = 3 SkipLive = TRUE Side = "client" Kinds = {"SA", "CA", "ERR", "ABTs", "ABTc", "ACKs", "ACKc"}
+CONSTANTS Peers = {1, 2} Foreign = 9 IdMod = 4 Ids = {0, 1, 3} StartIds = {0, 2, 3} MaxLive = 2 MaxReq = 3 SkipLive = TRUE Side = "server" Kinds = {"SA", "CA", "ERR", "ABTs", "ABTc", "ACKs", "ACKc"}
 INVARIANT IdUniquePerPeer
 INVARIANT ServerKeysUnique
 INVARIANT OutcomeMatches
